@@ -81,6 +81,7 @@ func (fam *family) groupCase(c *corr.Ctx, p cu.EncParams, frames []cu.Frame, nam
 	dec := a.NewDec()
 	base := c.Rng.Uint32()
 	multi := false
+	nextSeq := p.Seq0
 	for fi, f := range frames {
 		snap := cloneFrame(f)
 		pkts, ok, pan := b.enc(a.Instance, f)
@@ -102,6 +103,22 @@ func (fam *family) groupCase(c *corr.Ctx, p cu.EncParams, frames []cu.Frame, nam
 		var got cu.Frame
 		var samples uint32
 		for i, pk := range pkts {
+			// C06: numbering across the whole series of calls, size limit, payload type, SSRC
+			if pk.SequenceNumber != nextSeq {
+				fam.viol(c, "C06", "sequence numbers increase by exactly one modulo 2^16 from the initial value", "enc-seq", in,
+					fmt.Sprintf("frame %d packet %d/%d: seq %d, expected %d", fi, i, len(pkts), pk.SequenceNumber, nextSeq))
+			}
+			nextSeq = pk.SequenceNumber + 1
+			if s.Fragmenting && len(pk.Payload) > p.Max {
+				fam.viol(c, "C06", "payload no larger than the configured maximum", "enc-size", in,
+					fmt.Sprintf("frame %d packet %d/%d: payload %d > max %d", fi, i, len(pkts), len(pk.Payload), p.Max))
+			}
+			if pk.PayloadType != a.PT {
+				fam.viol(c, "C06", "configured (or format-mandated) payload type", "enc-pt", in, fmt.Sprintf("frame %d packet %d: pt %d, expected %d", fi, i, pk.PayloadType, a.PT))
+			}
+			if pk.SSRC != p.SSRC {
+				fam.viol(c, "C06", "configured SSRC", "enc-ssrc", in, fmt.Sprintf("frame %d packet %d: ssrc %d, expected %d", fi, i, pk.SSRC, p.SSRC))
+			}
 			if pk.Timestamp != samples {
 				fam.viol(c, "C03", "timestamp offset of a piece = sample count of the preceding pieces", "grouping-ts", in,
 					fmt.Sprintf("frame %d packet %d/%d: timestamp %d, preceding units hold %d samples", fi, i, len(pkts), pk.Timestamp, samples))
@@ -156,6 +173,12 @@ func (fam *family) groupCase(c *corr.Ctx, p cu.EncParams, frames []cu.Frame, nam
 			fam.viol(c, "C03", "a group that fits one packet is returned whole by that packet", "grouping-fits", in, fmt.Sprintf("frame %d", fi))
 		}
 		c.Dist(fmt.Sprintf("%s.group-pkts=%s", s.Name, bucket(len(pkts))))
+		if len(pkts) > 256 {
+			c.Dist(s.Name + ".calls-over-256-pkts")
+		}
+		if len(pkts) > 65536 {
+			c.Dist(s.Name + ".calls-over-65536-pkts")
+		}
 		base += a.TsStep
 	}
 	b.cs.Nontrivial = multi || len(frames) > 1
